@@ -53,8 +53,9 @@ def parse_doc(content, ctx, return_defaults=False, return_booleans=True):
         defaults = cfg["DEFAULT"]
         not_defaults = cfg[~eq("DEFAULT")]
         for c in not_defaults:
+            own = set(ch.name.lower() for ch in c.children)
             for d in defaults.grandchildren:
-                if d.name not in c:
+                if d.name.lower() not in own:
                     c.children.append(d)
 
         if not include_defaults:
